@@ -134,8 +134,12 @@ package transport
 //@   modifies implOpened
 //@   ensures implOpened <==> (result == nil)
 
-//@ func (*Transport).InChannelAuthData
+//@ secret [C11] Args.Password readers (*Transport).InChannelAuthData, (*Standard).openBase, (*Standard).openBase$1
+//@ secret [C11] SSHArgs.PrivateKeyPassPhrase readers (*Transport).InChannelAuthData
+//@ func (*Transport).InChannelAuthData [C11]
 //@   noverify
+//@   flows [C11] #password-copied-only-into-the-auth-data t.Args.Password only to store:InChannelAuthData.Password
+//@   flows [C11] #passphrase-copied-only-into-the-auth-data x.PrivateKeyPassPhrase only to store:InChannelAuthData.PrivateKeyPassPhrase
 //@   maypanic
 //@   modifies alloc()
 //@   ensures fresh(result)
@@ -143,7 +147,11 @@ package transport
 // ---- C14: the standard transport's host-key callback, user and timeout --------------------------------------------------
 //@ func (*Standard).openSession
 //@   noverify
-//@ func (*Standard).openBase [C14]
+//@ func (*Standard).openBase$1 [C11]
+//@   noverify
+//@   flows [C11] #keyboard-interactive-answers a.Password only to return
+//@ func (*Standard).openBase [C14 C11]
+//@   flows [C11] #password-goes-only-to-the-ssh-library a.Password only to Password#1.arg0, closure:openBase$1
 //@   ensures #strict-without-known-hosts-file-is-a-bad-option t.SSHArgs.StrictKey && t.SSHArgs.KnownHostsFile == "" ==> isErr(result, util.ErrBadOption)
 //@   at call openSession#1 assert #strict-checks-against-the-known-hosts-file t.SSHArgs.StrictKey ==> t.SSHArgs.KnownHostsFile != "" && arg1.HostKeyCallback == knownHostsCB(strs(t.SSHArgs.KnownHostsFile))
 //@   at call openSession#1 assert #checking-skipped-only-when-disabled !t.SSHArgs.StrictKey ==> arg1.HostKeyCallback == insecureCB()
